@@ -7,15 +7,15 @@ import (
 )
 
 type check struct {
-	id             string
-	bin            binKey
-	engine         string // gosim | enum | graph
-	testName       string
-	quickShards    int
-	thoroughShards int
-	quickBudget    float64 // seconds of wall clock per shard before the harness stops with exhaustive:false
-	thoroughBudget float64
-	gomaxprocs     int
+	id              string
+	bin             binKey
+	engine          string // gosim | enum | graph
+	testName        string
+	quickShards     int
+	thoroughShards  int
+	quickBudget     float64 // seconds of wall clock per shard before the harness stops with exhaustive:false
+	thoroughBudget  float64
+	gomaxprocs      int
 	noReplayConfirm bool
 }
 
